@@ -289,6 +289,13 @@ def racy_sets(prog: Program, fs0: dict[str, Any]) -> tuple[set[str], set[str]]:
             if hs in early or fs0["stages"][hs]["status"] == "CANCELED":
                 continue
             keep |= prog.ancestors(hs)
+        # ... except those a jump can re-arm while the halting stage runs (a jumping stage beside or after it): a halted
+        # stage's ancestor that is running its second pass when the halt cancels everything ends CANCELED
+        for j in prog.order:
+            for t in prog.task_specs(j):
+                if t.get("b") == "jumper" and t.get("target") in prog.stages:
+                    if any(j != hs and j not in sure_done(prog, hs) for hs in halted if hs in prog.stages):
+                        keep -= {t["target"]} | prog.descendants(t["target"])
         status_racy = set(prog.order) - keep
     for ref in prog.order:
         if prog.stages[ref].get("choice"):
